@@ -663,6 +663,16 @@ def rule_char_width_coherent(ctx, crate, rule="R-CHAR-WIDTH-COHERENT"):
             ctx.check(ok, rule, "cache-follows-table", b.name, K.fn_loc(b), "char_width is width() of the progress_chars stored by the same call", why, cfg)
         for i, j, s in cons:
             f = dict(zip(s["rv"]["fields"], s["rv"]["ops"]))
+            selfs = [p_ for p_ in range(1, b.arg_count + 1) if b.locals[p_]["ty"] == PSTY]
+            if selfs and "progress_chars" in f and K.meth(b.name) != "progress_chars":
+                # a builder that consumes a style hands its table on: `{bar:N}` is drawn with the configured characters (and their
+                # cell width) whatever builder was called last (seed C13n: `.progress_chars(X).template(T)` fell back to the default table)
+                psl_ = b.slice(f["progress_chars"], at=i, through_calls=False)
+                keeps = selfs[0] in psl_.params() and not psl_.calls
+                ctx.check(keeps, rule, "builder-keeps-table:%s" % K.meth(b.name), b.name, "%s:%d" % (b.file, s.get("line", 0)),
+                          "a builder that rebuilds the style keeps the configured progress characters",
+                          "%s() rebuilds the style with a progress_chars table that is not the one of the style it was called on: the configured characters "
+                          "(and their cell width) are silently replaced" % K.meth(b.name), cfg)
             if "char_width" in f and "progress_chars" in f:
                 wsl = b.slice(f["char_width"], at=i)
                 psl = b.slice(f["progress_chars"], at=i)
